@@ -501,7 +501,10 @@ def judge (f out : List String) : Verdict :=
       let plain := ((allStrings x).all fun t => t.all fun c => 32 ≤ c && c ≤ 126)
         && (x.features.getD []).all (fun f => locNoOverflow f.sequenceLocation)
       match out with
-      | ["ok", jtext, crt, gsx, gsrt0, ftext, crd0, cfl0, gbx, gbrt0, gfx, gfrt0] =>
+      | ["ok", jtext, crt, gsx, gsrt0, ftext, crd0, cfl0, gbx, gbrt0, gfx, gfrt0, crd20, crd30, crd40] =>
+        let crd2 := if crd20 == "=" then crt else crd20
+        let crd3 := if crd30 == "=" then crt else crd30
+        let crd4 := if crd40 == "=" then crt else crd40
         -- "=" : the harness found the field byte-identical to the one it is compared with
         let gsrt := if gsrt0 == "=" then gsx else gsrt0
         let crd := if crd0 == "=" then crt else crd0
@@ -510,6 +513,8 @@ def judge (f out : List String) : Verdict :=
         let gfrt := if gfrt0 == "=" then gfx else gfrt0
         let corrParts : List (String × Bool) := [
           ("marshal", sameJ (jsonOf jtext) mJ),
+          -- byte for byte: json.Marshal's text is the Lean printer's text (the premise of the text-level theorems)
+          ("marshal-text", !dom || jtext == toStr mJ.print),
           ("parse", crt == cRt),
           -- before the round trip only features that are linked to `x` report a sequence the property speaks
           -- about; what GetSequence does on a nil or foreign parent pointer is not compared
@@ -517,6 +522,7 @@ def judge (f out : List String) : Verdict :=
           ("getseq-after", !ascii || gsrt == getSeqs mRt),
           ("write", sameJ (jsonOf ftext) mJ),
           ("read", crd == cRt),
+          ("read-history", crd2 == cRt && crd3 == cRt && crd4 == cRt),
           ("lean-json", cfl == cRt),
           ("build", gbx == gbrt && gfx == gfrt),
           -- the writers' views (Model/PolyJsonViews) under the C03 / C14 writer models are what the real writers print
@@ -531,6 +537,9 @@ def judge (f out : List String) : Verdict :=
         let specParts : List (String × Bool) := [
           ("value after Parse(Marshal x)", valueOk crt),
           ("value after Read(Write x) on a path that held a longer document", valueOk crd),
+          ("Read after the file was replaced by the caller (a longer document had been written and read)", valueOk crd2),
+          ("Read after the value of an earlier Read was edited in place", valueOk crd3),
+          ("Read after the file was moved into place with rename", valueOk crd4),
           ("value after Parse(model-printed JSON)", valueOk cfl),
           ("every linked feature reports the same sequence (one reply per feature)", linkedReportsAgree x gsx gsrt),
           ("genbank.Build equal", gbx == gbrt),
@@ -585,7 +594,8 @@ def judge (f out : List String) : Verdict :=
         let mJ := toJ x
         let cRt := canon (polyjsonParse mJ)
         let corrParts : List (String × Bool) := [
-          ("marshal", sameJ (jsonOf jtext) mJ), ("parse", crt == cRt),
+          ("marshal", sameJ (jsonOf jtext) mJ), ("marshal-text", !inDomain x || jtext == toStr mJ.print),
+          ("parse", crt == cRt),
           ("build", direct == via && direct == viaFile && direct == viaPipe && direct == viaWrite)]
         let badCorr := corrParts.filter (!·.2)
         -- from here on every step ran on a value the direct writer accepted: a step that failed
